@@ -5,6 +5,7 @@ import (
 	"runtime"
 	"sort"
 	"sync"
+	"time"
 )
 
 // NetSim is implemented by the harness (SimHAProxy + SimDNS).
@@ -50,6 +51,8 @@ func LookupHost(host string) ([]string, error) {
 type ParkedGate struct {
 	Name string
 	Seq  int
+	// At is the (fake) instant the task reached the gate.
+	At   time.Time
 	ch   chan bool // true = go on, false = die (runtime.Goexit)
 	done chan struct{}
 	// Zombie gates belong to a crashed controller generation.
@@ -74,6 +77,7 @@ func Gate(name string) GateToken {
 	r.mu.Lock()
 	r.gateSeq++
 	g.Seq = r.gateSeq
+	g.At = time.Now()
 	r.parked = append(r.parked, g)
 	r.mu.Unlock()
 	r.Activity.Add(1)
